@@ -1127,6 +1127,47 @@ silent("c06-s-getslice-length-negated-floor", "C06", DOMAINS,
 fire("c06-slice-tensor-branch-typed-by-index", "C06", TERMS,
      "            return type(index)(data, index.inputs, self.output.dtype)", "            return type(index)(data, index.inputs, index.dtype)", "R06.13", "Slice.eager_subs")
 
+
+# ---- round 6: R07.8 b/c, R07.10, R16.12, R17.8 clauses, R17.11, R05.10 (known finding), R06.14, R04.16, R05.1 container
+DELTA = "funsor/delta.py"
+fire("c07-memoize-mutable-default", "C07", INTERP, "def memoize(cache=None):", "def memoize(cache={}):", "R07.8", "memoize")
+fire("c07-per-term-memo-of-derived-terms", "C07", TERMS,
+     "    def exp(self):\n        return Unary(ops.exp, self)\n",
+     "    def exp(self):\n        try:\n            return self._memo[ops.exp]\n        except AttributeError:\n            self._memo = {}\n        except KeyError:\n            pass\n        self._memo[ops.exp] = Unary(ops.exp, self)\n        return self._memo[ops.exp]\n",
+     "R07.8", "Funsor.exp")
+fire("c07-tensor-meta-copies-data", "C07", TENSOR,
+     "        if isinstance(data, np.generic):\n            data = data.__array__()\n",
+     "        if isinstance(data, (np.generic, np.ndarray)):\n            data = np.asarray(data, order=\"C\")\n", "R07.10", "TensorMeta.__call__")
+fire("c16-type-cache-created-unless-inherited", "C16", TYPING,
+     "        else:\n            cls._type_cache = weakref.WeakValueDictionary()", "        elif not hasattr(cls, \"_type_cache\"):\n            cls._type_cache = weakref.WeakValueDictionary()", "R16.12", "GenericTypeMeta.__init__")
+fire("c16-op-patterns-from-direct-bases", "C16", OP,
+     "        for supercls in reversed(inspect.getmro(cls)):", "        for supercls in reversed(cls.__bases__):", "R16.12", "OpMeta.__init__")
+silent("c16-s-op-patterns-from-dunder-mro", "C16", OP,
+       "        for supercls in reversed(inspect.getmro(cls)):", "        for supercls in reversed(cls.__mro__):")
+fire("c17-memoize-replaces-its-base", "C17", INTERP,
+     "    def __init__(self, base_interpretation, cache=None):\n",
+     "    def __init__(self, base_interpretation, cache=None):\n        if isinstance(base_interpretation, Memoize):\n            base_interpretation = base_interpretation.base_interpretation\n",
+     "R17.8", "Memoize.__init__")
+fire("c17-tape-delegate-not-restored", "C17", ADJOINT,
+     "            self._old_interpretation = self._saved_interpretations.pop()\n", "            self._saved_interpretations.pop()\n", "R17.8", "AdjointTape")
+fire("c17-tape-rebuilds-every-class-under-enclosing", "C17", ADJOINT,
+     "        else:\n            result = self._old_interpretation.interpret(cls, *args)\n", "        else:\n            with self._old_interpretation:\n                result = cls(*args)\n", "R17.11", "AdjointTape.interpret")
+fire("c06-delta-ignores-log-density-inputs", "C06", DELTA, "            inputs.update(log_density.inputs)\n", "", "R06.14", "Delta.__init__")
+fire("c04-delta-match-on-any-coordinate", "C04", DELTA, "(value == point).all()", "(value == point).any()", "R04.16", "Delta.eager_subs")
+fire("c05-contraction-binders-from-map-only", "C05", CNF,
+     "        reduced_vars = frozenset(\n            to_funsor(alpha_subs.get(var.name, var), var.output)\n            for var in self.reduced_vars\n        )\n        alpha_subs = {k: to_funsor(v, self.bound[k]) for k, v in alpha_subs.items()}\n        red_op, bin_op, _, terms = super()._alpha_convert(alpha_subs)\n",
+     "        alpha_subs = {k: to_funsor(v, self.bound[k]) for k, v in alpha_subs.items()}\n        red_op, bin_op, _, terms = super()._alpha_convert(alpha_subs)\n        reduced_vars = frozenset(alpha_subs.values())\n",
+     "R05.1", "Contraction._alpha_convert")
+fire("c05-fusion-wraps-only-values-with-fresh-keys", "C05", CNF,
+     "    new_subs = subs + tuple((k, Subs(v, subs)) for k, v in arg_subs)\n",
+     "    new_subs = subs + tuple(\n        (k, Subs(v, subs) if any(name in v.fresh for name, sub in subs) else v)\n        for k, v in arg_subs\n    )\n", "R05.9", "normalize_fuse_subs")
+silent("c05-s-fusion-wraps-only-values-that-mention-a-key", "C05", CNF,
+       "    new_subs = subs + tuple((k, Subs(v, subs)) for k, v in arg_subs)\n",
+       "    new_subs = subs + tuple(\n        (k, Subs(v, subs) if any(name in v.inputs for name, sub in subs) else v)\n        for k, v in arg_subs\n    )\n")
+silent("c05-s-approximate-fresh-only", "C05", TERMS,
+       "        bound = {v.name: v.output for v in approx_vars}\n        super().__init__(inputs, output, fresh, bound)\n        self.op = op\n        self.model = model",
+       "        bound = {}\n        super().__init__(inputs, output, fresh, bound)\n        self.op = op\n        self.model = model")
+
 # ===== derived variants: must stay at the END of this file (they enumerate every rename() variant above) =====
 # `if c: A else: B` -> `if not c: B else: A` in the anchor functions (behaviour-preserving)
 def invert(prop, file, qual):
